@@ -542,10 +542,39 @@ fn main() {
         // breadth first per root keeps the numbering stable under local edits
         b.run();
     }
-    // deterministic order of rows
-    let mut edges = b.edges.clone();
-    edges.sort_by(|x, y| (x.0, &x.3, x.1, x.2).cmp(&(y.0, &y.3, y.1, y.2)));
-    // restore declaration order inside one source type: stable sort by (src) only, keeping discovery order
+    // stable numbering: the user-visible roots in the order of ROOTS, then every other type by name
+    // (an added field then changes one row, it does not renumber the table)
+    {
+        let mut order: Vec<usize> = (0..b.nodes.len()).collect();
+        let root_pos = |n: &NodeT| ROOTS.iter().position(|r| r.2 == n.name && n.visible);
+        order.sort_by(|&x, &y| {
+            let (nx, ny) = (&b.nodes[x], &b.nodes[y]);
+            match (root_pos(nx), root_pos(ny)) {
+                (Some(a), Some(c)) => a.cmp(&c),
+                (Some(_), None) => std::cmp::Ordering::Less,
+                (None, Some(_)) => std::cmp::Ordering::Greater,
+                (None, None) => nx.name.cmp(&ny.name),
+            }
+        });
+        let mut newid = vec![0usize; b.nodes.len()];
+        for (new, &old) in order.iter().enumerate() {
+            newid[old] = new;
+        }
+        let nodes: Vec<NodeT> = order.iter().map(|&o| b.nodes[o].clone()).collect();
+        b.nodes = nodes;
+        for e in b.edges.iter_mut() {
+            e.0 = newid[e.0];
+            e.1 = newid[e.1];
+        }
+        for r in b.res.iter_mut() {
+            r.0 = newid[r.0];
+        }
+        for l in b.leaves.iter_mut() {
+            l.0 = newid[l.0];
+        }
+    }
+    // field declaration order inside one source type: stable sort by source only (fields were walked in order)
+    let edges = b.edges.clone();
     let mut edges_decl = b.edges.clone();
     edges_decl.sort_by_key(|e| e.0);
     let kinds = |k: Kind| match k {
@@ -571,14 +600,13 @@ fn main() {
         let has_drop = sc.drops.contains(&(d.file.clone(), d.name.clone()));
         writeln!(
             v,
-            "  ({}, {}, {}, {}){}   (* {}:{} *)",
+            "  ({}, {}, {}, {}){}   (* {} *)",
             i,
             coq_str(&n.name),
             has_drop,
             n.visible,
             if i + 1 < b.nodes.len() { ";" } else { "" },
-            d.file,
-            d.line
+            d.file
         )
         .unwrap();
     }
